@@ -289,6 +289,12 @@ def check_addr(case, ctx):
     d2 = must(P2WSHSortedMulti, "addr/construct", w.m, w.key_records(other))
     got = must(d2.get_address, "addr/receive", first[0], False)
     require(got == first[1], "addr/depends_on_supply_order", f"{got} != {first[1]}")
+    # the first descriptor object still answers the same after all of the above (and after its text was
+    # taken)
+    text = str(d)
+    require(must(d.get_address, "addr/receive_again", first[0], False) == first[1],
+            "addr/answer_depends_on_earlier_calls")
+    require(str(d) == text, "addr/descriptor_text_changed_by_use")
 
 
 # ------------------------------------------------------------ substitutions
